@@ -411,8 +411,17 @@ func (s *sched) exec(ctx context.Context, r Req) (any, *plugins.Error) {
 		defer atomic.AddInt64(&s.ovOpen, -1)
 		if out == "lateok" {
 			// a plugin that is slow to honour the cancellation: it returns a (now worthless) success while the
-			// engine is already busy with the next attempt
-			time.Sleep(25 * time.Millisecond)
+			// engine is already busy with the next attempt, i.e. once the next invocation of the same action has
+			// started (or, when there is none, after a bounded wait)
+			k := key(ref.pl, ref.name)
+			for t0 := time.Now(); time.Since(t0) < 2*time.Second; time.Sleep(time.Millisecond) {
+				next := false
+				s.rec.do(func() ev { next = s.calls[k] > c.n; return nil })
+				if next {
+					break
+				}
+			}
+			time.Sleep(5 * time.Millisecond)
 		}
 	}
 	s.emit(ref.pl, func() ev {
